@@ -154,6 +154,10 @@ def run_case(ctx):
     gm = gen.random_basis_list(rng, nsite=(2, 6), max_dim=1024, min_dim=4,
                                qn_mode=rng.choice(["none", "one", "two"], p=[0.35, 0.5, 0.15]))
     as_mpdm = bool(rng.random() < 0.25)
+    if rng.random() < 0.05:
+        gm = gen.long_chain(rng, 10, 11)
+        as_mpdm = False
+        ctx.cls("long-chain")
     if as_mpdm and gm.dim > 64:
         gm = gen.random_basis_list(rng, nsite=(2, 4), max_dim=48, min_dim=4, qn_mode=gm.desc["qn_mode"])
     model = states.model_of(gm)
